@@ -137,4 +137,93 @@ CHECKS.update({
                  "(noted, not flagged: no production caller)."),
     },
 })
+CHECKS.update({
+    "C03": {
+        "families": ("gossip", "processor"),
+        "level": "proof",
+        "technique": "Lean 4 accept-iff / no-op / stored-under-signer / cap-invariant (induction over histories) / pre-image-level domain-separation theorems over a statement-by-statement model of the two p2p verifiers and SetHeartbeat/Cleanup with digest, ecrecover and protobuf as abstract oracles, plus the observation-gate no-op theorem on the processor model; constants re-extracted from source each run; tied by differential execution of the real verifiers and of handleObservation on every single mutation",
+        "text": ("For every guardian set, table, message and oracle: a heartbeat / observation request is accepted iff the envelope address (last 20 "
+                 "bytes) is in the set, prefix+body passes the 34-byte floor, the signature over H(prefix++body) recovers to that address, the body "
+                 "decodes and (heartbeats) the guardian has room; otherwise table and forwarded list are unchanged; entries are stored under the "
+                 "recovered signer; every history of heartbeats, own heartbeats and Cleanups keeps <=15 entries per guardian; only set members ever "
+                 "get an entry; the three signed pre-image sets (32-byte VAA pre-images, 'heartbeat|'++b >=34, 'signed_observation_request|'++b >=34) "
+                 "are pairwise disjoint; a gossiped observation that does not recover to its claimed address or whose signer is outside the "
+                 "applicable set leaves the processor state unchanged (observation_gate_noop). Prefixes, floor tests and cap are extracted from "
+                 "p2p.go/guardianset.go each run and pinned to the protocol values; the real processSignedHeartbeat / "
+                 "processSignedObservationRequest / SetHeartbeat / Cleanup / handleObservation are compared with the models and the Spec is "
+                 "evaluated on their own results."),
+        "note": ("Trusted: Lean kernel; Keccak/secp256k1/protobuf as per-case oracles computed independently by the harness (no theorem assumes "
+                 "anything about them); harness + driver; p2p stub (Run body removed) - the call sites inside p2p.Run and the "
+                 "disableHeartbeatVerify default are checked textually only; differential run samples inputs."),
+    },
+    "C12": {
+        "families": ("db",),
+        "level": "proof",
+        "technique": "Lean 4 theorems over all store histories (key injectivity, lookup = last stored, prefix <-> stream, gap scan = spec, governance batch = spec, RPC wrappers) on a hand model of db.go, the structs.go key functions, publicrpcserver.go and FindMissingMessages, tied by differential execution on a real badger store through all three layers",
+        "text": ("key_injective, get_exact, prefix_iff_stream, gap_spec, gov_batch_spec, rpc_*_exact and fmm_spec are proved for every history of "
+                 "stored VAAs. The model is replayed against the real db, PublicrpcServer and admin service on stores built from chain ids whose "
+                 "decimal renderings are prefixes of one another, with overlaps, overwrites and raw malformed keys; every answer is also judged "
+                 "against lastStored / specGap / specGov of the implementation's own history."),
+        "note": ("Trusted: Lean kernel; badger ordered prefix iteration (Seek + ValidForPrefix modelled as sort + filter, assumed); C05's "
+                 "decode_encode; harness and driver; p2p stub for cmd/guardiand. first = 0 and the empty-stream answer are taken from the repo "
+                 "test. Streams holding empty-payload VAAs and sequence 2^64-1 are outside the gap Spec's domain; enum numbers outside 0..65535 "
+                 "are diff-only."),
+    },
+    "C16": {
+        "families": ("crash",),
+        "level": "fault_enumeration",
+        "technique": "SIGKILL / reopen enumeration on the real badger store from a re-executed test binary, judged by a Lean acceptance function proved sound and meaningful for a crash-contract model (theorems over all put/ack/crash/reopen sequences)",
+        "text": ("A child process runs db.Open and StoreSignedVAA and acknowledges each success; the parent kills it at PRNG-chosen points over many "
+                 "cycles on the same directory; a second child reopens and reads back every identifier. Each answer is judged by acceptKey: an "
+                 "acked id is found with bytes not older than the newest acked store, found bytes equal a store under that id, the store "
+                 "reopens. Lean proves acked_survive(_forever), lookup_exact, accept_sound and accept_*_meaning for every sequence of the "
+                 "contract model. Machine-checked proof applies to the contract and the judge only: why badger honours the contract lives in "
+                 "its WAL and the OS, which no model here exhibits - hence fault enumeration, not proof."),
+        "note": ("Process kill only (SyncWrites off: power loss out of scope). Kill points are sampled. Trusted: harness bookkeeping (acked iff a "
+                 "complete ack line was received), driver, Lean kernel; badger WAL/mmap and the page cache are not modelled."),
+    },
+    "C17": {
+        "families": ("reobserve",),
+        "level": "proof",
+        "technique": "Lean 4 theorems over all histories (induction with a window invariant) for a model of the dispatcher cache/purge and the non-blocking queues, window and ticker extracted from source; tied by running the real handleReobservationRequests loop under a harness-owned clock/ticker channel and the real PostObservationRequest",
+        "text": ("For every window, cache, history and queue state: a request goes only to the watcher of chain_id mod 2^16, exactly when its "
+                 "(chain, tx) is not remembered and that queue has room; unknown chain / full queue / duplicate leave the cache unchanged; a "
+                 "remembered key is never forwarded again before a purge tick later than forward+window, and on monotone histories two forwards "
+                 "of one key are more than the window apart; after such a tick the next request with room is forwarded; every send happens only "
+                 "into a queue with room (no blocking transition) and PostObservationRequest fails iff the queue is full without touching it. "
+                 "Window (11 min) and ticker (7 min) are extracted each run and pinned; the real loop is compared with the model on every queue "
+                 "length and drained item across window-boundary (+-1 ns), fill-level, unknown-chain and random sessions, with the Spec evaluated "
+                 "on its own behaviour."),
+        "note": ("Trusted: Lean kernel; harness clock/ticker substitution (period cross-checked with the value the loop passes to clock.Ticker), "
+                 "barrier synchronisation, driver ghost state; Go select/default semantics exercised not modelled; non-blocking of the Go code is "
+                 "observed via 10 s timeouts; p2p stub needed to compile cmd/guardiand."),
+    },
+    "C19": {
+        "families": ("explorer",),
+        "level": "proof",
+        "technique": "Lean 4 invariant and refinement theorems over a hand model of verifyVAA / Push / GuardianSets (atomic and fine-grained interleaving, all schedules), tied by differential execution of the real packages against a fake chain plus the Go race detector for the atomicity assumption",
+        "text": ("queued => verified against the set the VAA names (quorum + C06.Valid); the index invariant list[i].index = i is preserved by every "
+                 "caller-shaped update; lookup returns the named set and never panics; the dedup key is stored iff the message was queued, so a "
+                 "retry after a full queue is ingested; interleaving safety for all schedules of arbitrarily many goroutines when reads are under "
+                 "the lock, with the unrepaired code's violation as a proved witness. The real updateGuardianSets / GetGuardianSet / Push / "
+                 "verifyVAA run against a fake JSON-RPC chain and are compared with the model; concurrent readers/writers run under -race and a "
+                 "race report or a wrong/panicking lookup is a Spec violation."),
+        "note": ("Trusted: Lean kernel; harness and driver; ecrecover and Keccak as oracles; scheduling is modelled as interleaving, data-race "
+                 "freedom is observed with -race, not proved; the explorer links the module-cache node version v0.0.0-20240818215257-cb0667c4f6c1 "
+                 "(that is the code the harness runs), not /repo/node."),
+    },
+    "C20": {
+        "families": ("spy",),
+        "level": "proof",
+        "technique": "Lean 4 theorems over a hand model of Publish's fan-out and a blocking-semantics transition system (mutex, 1-slot channels, stalling or leaving readers), incl. a proved reachable-deadlock witness; tied by differential execution with fake gRPC streams and deadline-observed completion",
+        "text": ("Delivery half (proved, c20_delivery_set_partial + log exactness in every history): for every set of subscriptions, filters and map "
+                 "iteration order a decodable VAA is sent to exactly the matching subscriptions (one copy per matching filter), and progress holds "
+                 "whenever subscribers read. Isolation half: FALSE of the pinned code - c20_deadlock_witness / c20_isolation_fails prove a "
+                 "reachable state in which a stalled subscriber blocks Publish, registration and removal; the harness reproduces it against the "
+                 "real spy server and it is recorded as a known finding (no small safe repair: with bounded queues the publisher must block or "
+                 "drop). Every other violation of C20 is still reported."),
+        "note": ("Partial: isolation is a known finding, clause publish-blocked-by-stalled-subscriber. Scheduling is modelled; 'blocked' is "
+                 "observed as a 4 s (quick) / 12 s (thorough) deadline; vaa.Unmarshal is the decode oracle; p2p.Run is stubbed for the build."),
+    },
+})
 NOT_BUILT = {}
